@@ -267,6 +267,40 @@ def raw_invariant(chk: Check, repo: Repo, cname: str) -> None:
         chk.ob("constructor-establishes-16-bit-range", ini.site(a), why is not None, f"{cname}.__init__: `{ast.unparse(a)}` — {why or 'no range check between this assignment and the normal exit: a value outside 0..65535 is stored (renders to text that re-parses to a different address; to_knx cannot serialise it)'}", key=f"raw-range|{cname}|{canon(a)}")
 
 
+class _Recorder:
+    """stands in for a Check when a rule is re-used as the validator of a reviewed entry elsewhere"""
+
+    def __init__(self) -> None:
+        self.failed: list[str] = []
+
+    def ob(self, rule, site, ok, detail="", key=None):
+        if not ok:
+            self.failed.append(f"{rule}: {detail}")
+
+    def floor(self, name, n, least):
+        if n < least:
+            self.failed.append(f"floor {name}: {n} < {least}")
+
+    def unit(self, *a, **k):
+        pass
+
+    def count(self, *a, **k):
+        pass
+
+
+def raw_is_16_bit(repo: Repo) -> bool:
+    """0 <= raw <= 65535 for every GroupAddress / IndividualAddress object: the constructor invariant above, and no
+    writer of `.raw` on these classes outside their constructors."""
+    rec = _Recorder()
+    for cname in ("GroupAddress", "IndividualAddress"):
+        raw_invariant(rec, repo, cname)  # type: ignore[arg-type]
+    from ..astx import attr_writes
+    base = repo.cls(M, "BaseAddress")
+    foreign = [w for w in attr_writes(repo, "raw", include_mutators=False) if w.func.cls is not None and repo.is_subclass(w.func.cls, base) and w.func.name != "__init__"]
+    foreign += [w for w in attr_writes(repo, "raw", include_mutators=False) if (w.func.cls is None or not repo.is_subclass(w.func.cls, base)) and w.receiver != "self" and w.func.module.name.startswith("xknx.telegram")]
+    return not rec.failed and not foreign
+
+
 def internal(chk: Check, repo: Repo) -> None:
     ini = repo.func(M, "InternalGroupAddress.__init__")
     chk.unit(ini)
